@@ -12,7 +12,7 @@ THEOREMS = ["C16_ref_call_roundtrip", "C16_ref_call_sound", "C16_uaddr4_roundtri
             "C16_proto_udp_monitor", "C16_proto_tcp_monitor", "C16_proto_udp_structured", "C16_proto_tcp_structured",
             "C16_parser_steps_safe", "C16_build_never_panics", "C16_pstate_panic_unreachable", "C16_examples", "C16_known_class_witness",
             "C11rpc.C11_rpc_parse_fold", "C11rpc.C11_rpc_first_call", "C11rpc.C11_rpc_first_reply_decodes",
-            "C11rpc.C11_rpc_reset_after_message", "C11rpc.C11_rpc_two_calls", "C16frame.C16_frame_udp_at", "C16frame.C16_frame_udp", "C16frame.C16_frame_tcp_first_state_at", "C16frame.C16_frame_tcp_first_history_at", "C16frame.C16_frame_tcp_first", "C16frame.C16_frame_udp_identified", "C16frame.C16_frame_tcp_identified", "C16frame.C16_ident_from_C10", "C16frame.C16_frame_examples", "Current.Glue_ref_chk_sound", "Current.Glue_tbl_chk_sound", "Current.C16_class_covers_C10_class", "Current.C16_current_ident", "Current.C16_class_unidentified", "Current.C16_class_exact", "Current.C16_current_frame_udp", "Current.C16_current_frame_tcp_first", "Current.C16_current_frame_tcp_first_state", "Current.C16_current_examples", "Env.the_env_ok"]
+            "C11rpc.C11_rpc_reset_after_message", "C11rpc.C11_rpc_two_calls", "C16frame.C16_frame_udp_at", "C16frame.C16_frame_udp", "C16frame.C16_frame_tcp_first_state_at", "C16frame.C16_frame_tcp_first_history_at", "C16frame.C16_frame_tcp_first", "C16frame.C16_frame_udp_identified", "C16frame.C16_frame_tcp_identified", "C16frame.C16_ident_from_C10", "C16frame.C16_frame_examples", "Current.Glue_ref_chk_sound", "Current.Glue_tbl_chk_sound", "Current.C16_class_covers_C10_class", "Current.C16_current_ident", "Current.C16_class_unidentified", "Current.C16_class_exact", "Current.C16_current_frame_udp", "Current.C16_current_frame_tcp_first", "Current.C16_current_frame_tcp_first_state", "Current.C16_current_examples", "C16ip6.C16_ip6_text_roundtrip", "C16ip6.C16_render_ipv6_injective", "C16ip6.C16_uaddr6_roundtrip", "C16ip6.C16_uaddr_ok_expected", "C16ip6.C16_uaddr_ok_sound", "C16ip6.C16_uaddr_ok_wf", "C16ip6.C16_ip6_reader_wf", "C16ip6.C16_ip6_any_compression", "C16ip6.C16_ip6_stmts", "C16ip6.C16_ip6_examples_dsts", "C16ip6.C16_ip6_examples_rejected", "C16ip6.C16_ip6_examples_alt", "C16ip6.C16_ip6_examples_patterns", "C16ip6.C16_ip6_examples_uaddr_ok", "Env.the_env_ok"]
 MONITORS = ["C16udp", "C16tcp", "C16udp_strict", "C16tcp_strict"]
 STRICT = ("C16udp_strict", "C16tcp_strict")
 RULE = ("ONC-RPC calls built by an independent Python encoder: xids with every first byte 0..255 (inside and outside the "
@@ -30,8 +30,9 @@ TRUSTED = ["Coq 8.16.1 kernel + vm_compute", "extraction (ExtrOcamlBasic) + ocam
            "Rust hook verif_driver.rs", "pnet accessor semantics as modelled", "Python ipaddress (parsing of address text)"]
 ASSUMPTIONS = ["identification by the compiled matcher is a hypothesis of the theorems; in-scope calls that are not identified "
                "form the known class rpc_shadowed (decided by the extracted predicate c16_class_frame)",
-               "IPv6 address text: model and specification share render_ipv6; validated by correspondence and by the "
-               "independent Python parser only (partial)"]
+               "IPv6 address text: model and specification share render_ipv6, which is tied to an INDEPENDENT RFC 4291 reader "
+               "by a proved round trip for all addresses (C16ip6.C16_ip6_text_roundtrip, C16_uaddr6_roundtrip), and checked "
+               "on the implementation's replies by the Python ipaddress module"]
 
 KEY = (0x1616, 0x6161)
 SHADOW = [0x47, 0x50, 0x48, 0x44, 0x43, 0x4f, 0x54, 0x53, 0x00]
